@@ -294,19 +294,23 @@ func (hs *clientHandshakeStateGM) doFullHandshake() error {
 		ka.encipherCert = c.peerCertificates[1]
 	}
 
+	// GM/T 0024: every GMSSL key exchange carries a ServerKeyExchange; its signature is the server's proof of
+	// possession of the signing key, so the message is not optional
 	skx, ok := msg.(*serverKeyExchangeMsg)
-	if ok {
-		hs.finishedHash.Write(skx.marshal())
-		err = keyAgreement.processServerKeyExchange(c.config, hs.hello, hs.serverHello, c.peerCertificates[0], skx)
-		if err != nil {
-			c.sendAlert(alertUnexpectedMessage)
-			return err
-		}
+	if !ok {
+		c.sendAlert(alertUnexpectedMessage)
+		return unexpectedMessageError(skx, msg)
+	}
+	hs.finishedHash.Write(skx.marshal())
+	err = keyAgreement.processServerKeyExchange(c.config, hs.hello, hs.serverHello, c.peerCertificates[0], skx)
+	if err != nil {
+		c.sendAlert(alertUnexpectedMessage)
+		return err
+	}
 
-		msg, err = c.readHandshake()
-		if err != nil {
-			return err
-		}
+	msg, err = c.readHandshake()
+	if err != nil {
+		return err
 	}
 
 	var chainToSend *Certificate
